@@ -12,7 +12,7 @@ import meta_util as mu
 import vkit
 
 LEVEL = "model_checking"
-RELEVANT = ("res", "ex", "get", "lk", "ec", "list", "expd", "srch", "garb")
+RELEVANT = ("res", "ex", "get", "lk", "ec", "list", "expd", "srch", "garb", "cnrs")
 
 
 def handle(ck, cat, out, pid_prefix, relevant):
